@@ -30,6 +30,12 @@ structure JSetEnv where
   value : String
   deriving FromJson, Repr
 
+structure JFault where
+  call : Nat
+  mode : String
+  budget : Nat
+  deriving FromJson, Repr
+
 structure JStep where
   op : String
   set : String
@@ -39,6 +45,8 @@ structure JStep where
   obj : Nat
   env : Option (List JEnv)
   setEnv : Option (List JSetEnv)
+  fault : Option JFault := none     -- C10 only
+  drift : Option Bool := none       -- C10 only
   deriving FromJson, Repr
 
 structure Scn where
@@ -46,6 +54,7 @@ structure Scn where
   sets : Option (List JSet)
   store : Option (List JSObj)
   steps : Option (List JStep)
+  rounds : Option Nat := none       -- C10 only
   deriving FromJson, Repr
 
 def toLifecycle : String → Lifecycle
